@@ -24,6 +24,7 @@ import (
 
 	"com.tuntun.rangers/node/src/common"
 	crypto "com.tuntun.rangers/node/src/eth_crypto"
+	"com.tuntun.rangers/node/src/executor"
 	"com.tuntun.rangers/node/src/vm"
 	"github.com/holiman/uint256"
 	"verif/harness/hx"
@@ -1590,6 +1591,31 @@ func main() {
 				return "err"
 			}
 			return "ok " + hexTok(o)
+		})
+	}
+	// executor.IntrinsicGas against the model
+	nig := hx.ArgInt(a, "igas", 300)
+	for i := 0; i < nig; i++ {
+		p26 := r.Bool()
+		if p26 {
+			setConfig(63)
+		} else {
+			setConfig(1 | 2 | 8 | 32)
+		}
+		creation := r.Bool()
+		data := r.Bytes(r.Pick(0, 1, 2, 31, 32, 33, 100, 1000) + r.Intn(3))
+		for j := range data {
+			if r.Chance(1, 2) {
+				data[j] = 0
+			}
+		}
+		op := fmt.Sprintf("igas %s %s %s", b01(p26), b01(creation), hexTok(data))
+		out.Do(op, func() string {
+			g, err := executor.IntrinsicGas(data, creation)
+			if err != nil {
+				return "overflow"
+			}
+			return "ok " + strconv.FormatUint(g, 10)
 		})
 	}
 	kinds := []string{}
